@@ -580,6 +580,79 @@ def rule_D7(text):
     return re.sub(r'for (\w+) in (\w+) \{', rep, text), n
 
 
+def inline_closure_call(body, callee):
+    """rule I1: `CALLEE(arg1, .., |x| { CB });` in `body` is replaced by the callee's own body (taken from the repository on this run)
+    with its parameters bound by `let`s and every call `f(E);` of the closure parameter replaced by `{ let x = E; CB }` -- beta
+    reduction of a generic function applied to a closure literal.  Refused (ExtractError) when the callee returns early, uses its
+    closure other than by direct call statements, or when a callee local would capture a name used in the closure body."""
+    name = callee.name
+    m = re.search(r'\b' + re.escape(name) + r'\(', body)
+    if not m:
+        raise ExtractError('lost anchor: call of %s' % name)
+    op = m.end() - 1
+    cp = match_close(body, op, '(', ')')
+    args = [a.strip() for a in split_top_commas(body[op + 1:cp])]
+    end = cp + 1
+    if body[end:end + 1] == ';':
+        end += 1
+    # callee parameters
+    k0 = callee.sig.index(name) + len(name)
+    if callee.sig[k0:k0 + 1] == '<':
+        k0 = match_close(callee.sig, k0, '<', '>') + 1
+    so = callee.sig.index('(', k0)
+    sc = match_close(callee.sig, so, '(', ')')
+    params = []
+    for prm in split_top_commas(callee.sig[so + 1:sc]):
+        pn = prm.split(':', 1)[0].strip()
+        params.append(re.sub(r'^mut\s+', '', pn))
+    if len(params) != len(args):
+        raise ExtractError('unsupported construct: %s called with %d arguments, declared with %d' % (name, len(args), len(params)))
+    mc = re.match(r'\|(\w+)\|\s*\{', args[-1])
+    if not mc:
+        raise ExtractError('unsupported construct: last argument of %s is not a closure literal |x| { .. }' % name)
+    cvar = mc.group(1)
+    cob = args[-1].index('{')
+    ccb = match_close(args[-1], cob, '{', '}')
+    cbody = args[-1][cob + 1:ccb]
+    fpar = params[-1]
+    cal = strip_comments(callee.body)
+    cal = drop_attrs_in_body(cal)
+    inner = cal[cal.index('{') + 1:cal.rindex('}')]
+    if re.search(r'\breturn\b', inner):
+        raise ExtractError('unsupported construct: %s returns early, cannot be inlined' % name)
+    ncalls = len(re.findall(r'\b' + re.escape(fpar) + r'\(', inner))
+    nuses = len(re.findall(r'\b' + re.escape(fpar) + r'\b', inner))
+    if ncalls == 0 or nuses != ncalls:
+        raise ExtractError('unsupported construct: %s uses its closure parameter other than by direct calls' % name)
+    locs = set(re.findall(r'\blet\s+(?:mut\s+)?(\w+)', inner))
+    for t in re.findall(r'let\s*\(([^)]*)\)', inner):
+        for x in t.split(','):
+            locs.add(re.sub(r'^mut\s+', '', x.strip()))
+    locs |= set(params[:-1])
+    used = set(re.findall(r'\b[A-Za-z_]\w*\b', cbody)) - {cvar}
+    clash = sorted(n for n in (locs & used) if n)
+    if clash:
+        raise ExtractError('unsupported construct: inlining %s would capture %s' % (name, clash))
+    out = []
+    j = 0
+    rx = re.compile(r'\b' + re.escape(fpar) + r'\(')
+    while True:
+        mm = rx.search(inner, j)
+        if not mm:
+            out.append(inner[j:])
+            break
+        o2 = mm.end() - 1
+        c2 = match_close(inner, o2, '(', ')')
+        out.append(inner[j:mm.start()])
+        # (a bare block right after a loop body is ambiguous for the Verus parser: bind the unit result)
+        out.append('let verif_app_%d: () = { let %s = %s; %s };' % (len(out), cvar, inner[o2 + 1:c2].strip(), cbody.strip()))
+        j = c2 + 1
+        if inner[j:j + 1] == ';':
+            j += 1
+    binds = ' '.join('let %s = %s;' % (pn, a) for pn, a in zip(params[:-1], args[:-1]))
+    return body[:m.start()] + '{ ' + binds + '\n' + ''.join(out) + '\n}' + body[end:], ncalls
+
+
 def rule_D9(text):
     """(LO..HI).map(|X| BODY).collect()   ->   { let mut verif_out = Vec::new(); let verif_hi = HI; let mut verif_k = LO;
                                                  while verif_k < verif_hi { let X = verif_k; let verif_item = BODY; verif_out.push(verif_item); verif_k += 1; } verif_out }
